@@ -86,6 +86,61 @@ def panic_sites(body, live):
     return out
 
 
+SIZE_CALLS = re.compile(r"(::len|Iterator::position|Iterator::rposition|Iterator::count|::capacity)$")
+
+
+def _size_bounded(body, place, defs, seen=None, depth=0):
+    """True when every definition of the place's local is (a copy of) the
+    result of a call that returns the size of / an index into an in-memory
+    collection: such a value is at most isize::MAX."""
+    seen = seen if seen is not None else set()
+    l = cfg.place_local(place)
+    if l in seen or depth > 20:
+        return False
+    seen.add(l)
+    ds = defs.get(l, [])
+    if not ds:
+        return False
+    for (_bi, st, is_term) in ds:
+        if is_term:
+            if st["k"] != "call" or not SIZE_CALLS.search(st.get("callee") or ""):
+                return False
+        elif st.get("k") == "use":
+            p = cfg.op_place(st["ops"][0])
+            if p is None or not _size_bounded(body, p, defs, seen, depth + 1):
+                return False
+        else:
+            return False
+    return True
+
+
+def index_add_is_safe(body, bi):
+    """`a + b` on usize cannot overflow when each operand is a small constant
+    or a collection size/index (each <= isize::MAX): the only overflow asserts
+    discharged without a reviewed table entry."""
+    t = body.blocks[bi]["term"]
+    if t.get("msg") != "Overflow" or t.get("op") != "Add" or t.get("oty") != "usize":
+        return False
+    cl = cfg.op_local(t.get("cond"))
+    defs = cfg.defs_of(body)
+    for s in body.blocks[bi]["s"]:
+        if s.get("k") == "bin" and s.get("op") == "AddWithOverflow" and s.get("d") is not None and cfg.place_local(s["d"]) == cl:
+            n_const = 0
+            for o in s["ops"]:
+                c = cfg.op_const(o)
+                if c is not None:
+                    v = c.get("i")
+                    if not isinstance(v, int) or v < 0 or v > 1 << 32:
+                        return False
+                    n_const += 1
+                else:
+                    p = cfg.op_place(o)
+                    if p is None or not _size_bounded(body, p, defs):
+                        return False
+            return True
+    return False
+
+
 def r1_panic_reachability(ctx):
     ws = ctx.ws
     r = ctx.rule("C15-R1", "no panic site is reachable from a decoder / reader entry point",
@@ -123,6 +178,9 @@ def r1_panic_reachability(ctx):
                 counts[base] = idx + 1
                 key = "%s#%d" % (base, idx)
                 safe = c15_safe.lookup(root, kind, detail, idx)
+                if not safe and kind == "assert" and index_add_is_safe(b, i):
+                    r.ok(key, cfg.loc(b, i), "usize addition of collection sizes/indices and small constants (each <= isize::MAX): cannot overflow", work=1)
+                    continue
                 if safe:
                     r.ok(key, cfg.loc(b, i), "reviewed safe: " + safe, work=1)
                 else:
